@@ -40,11 +40,9 @@ P == [dirs |-> dirs, files |-> {[name |-> f, py |-> TRUE] : f \in files}, stmts 
 Init == dirs = {R} /\ files = {} /\ stmts = {} /\ steps = 0
 MkDir(d)   == d \notin dirs /\ SubSeq(d, 1, Len(d) - 1) \in dirs /\ dirs' = dirs \cup {d} /\ UNCHANGED <<files, stmts>>
 MkFile(f)  == f \notin files /\ SubSeq(f, 1, Len(f) - 1) \in dirs /\ files' = files \cup {f} /\ UNCHANGED <<dirs, stmts>>
-\* a statement is only written once what it names exists: an import of a name inside the root package that is no
-\* module ("dangling") is outside the documented input language (DESIGN section 5, guard 4)
-NotDangling(s) == LET c == [mpath |-> R, excluded |-> {}, limit |-> 0, ext |-> FALSE, extexcl |-> {}] IN
-                  \A t \in Named(P, c, s).must : t \in InternalMods(P, c) \/ ~Anc(R, t)
-AddStmt(s) == s \notin stmts /\ s.file \in files /\ NotDangling(s) /\ stmts' = stmts \cup {s} /\ UNCHANGED <<dirs, files>>
+\* (a statement may be written before what it names exists: an import of a name inside the root package that is no
+\* module - a dangling import - contributes no module and no import, under any option)
+AddStmt(s) == s \notin stmts /\ s.file \in files /\ stmts' = stmts \cup {s} /\ UNCHANGED <<dirs, files>>
 \* one named action per kind of step, so that TLC's coverage report shows each of them was taken (vacuity guard)
 Tick       == steps < MaxSteps /\ steps' = steps + 1
 DoMkDir    == Tick /\ \E d \in DirU \ {R} : MkDir(d)
